@@ -8,6 +8,9 @@ import (
 	"golang.org/x/tools/go/ssa"
 )
 
+var dumpMode string
+var dumpPreset map[string]string
+
 // dumpPathSum prints the outcomes of one entry (debugging aid: otterlint -pathsum recv.name).
 func dumpPathSum(cx *Ctx, spec string, quiet bool) {
 	parts := strings.Split(spec, ".")
@@ -25,7 +28,29 @@ func dumpPathSum(cx *Ctx, spec string, quiet bool) {
 		return
 	}
 	ps := newPathSum(cx)
-	outs := ps.Run(fn, nil)
+	if strings.HasSuffix(spec, "+load") || true {
+		for k, kind := range loadEvents {
+			pp := strings.Split(k, ".")
+			if f := cx.P.Func("", pp[0], pp[1]); f != nil && origin(f) != origin(fn) {
+				if strings.Contains(dumpMode, "load") {
+					ps.asEvents[origin(f)] = kind
+				}
+			}
+		}
+		if strings.Contains(dumpMode, "brk") {
+			if f := cx.P.Func("", "cache", "bulkRefreshKeys"); f != nil && origin(f) != origin(fn) {
+				ps.asEvents[origin(f)] = "BulkRefreshKeys"
+			}
+		}
+		if strings.Contains(dumpMode, "getnode") {
+			for _, n := range []string{"getNode", "getNodeQuietly"} {
+				if f := cx.P.Func("", "cache", n); f != nil {
+					ps.asEvents[origin(f)] = "GetNode"
+				}
+			}
+		}
+	}
+	outs := ps.Run(fn, dumpPreset)
 	fmt.Printf("%s: %d outcomes, steps %d, recorded forks %d, silent forks %d, capped %v, max %d\n", funcName(fn), len(outs), ps.steps, ps.forks, ps.silent, ps.capped, ps.maxSeen)
 	if quiet {
 		return
@@ -61,3 +86,5 @@ func predString(p map[string]bool) string {
 	sort.Strings(ps)
 	return strings.Join(ps, " ∧ ")
 }
+
+var loadEvents = map[string]string{"group.startCall": "StartCall", "group.doCall": "DoCall", "group.doBulkCall": "DoBulkCall", "call.wait": "Wait", "cache.afterDeleteCall": "AfterFinish"}
